@@ -19,7 +19,7 @@ ENGINES = {
     "C18": ("eng_pratt", "proof"),
     "C15": ("eng_world", "other"),
     "C12": ("eng_charset", "proof"),
-    "C10": ("eng_front", "other"),
+    "C10": ("eng_front", "proof"),
     "C11": ("eng_front", "proof"),
     "C17": ("eng_examples", "other"),
     "C01": ("eng_core", "proof"),
